@@ -26,7 +26,7 @@ META = dict(
     assumptions=['REF-SEM semantics (vlib/ref/sem.py), incl. lattice reading of the FDE family',
                  'components are atoms A, B / monadic Fx: exactness for arbitrary components follows by compositionality of REF-SEM'],
     min_events={'any': {'shapes_with_expansion': 2000, 'interpretations_checked': 20000, 'frame_cases': 2000, 'logics': 52}},
-    budget=dict(quick=1500, thorough=1800),
+    budget=dict(quick=1500, thorough=7200),
     unit_timeout=dict(quick=900, thorough=3000),
 )
 
